@@ -116,6 +116,10 @@ pub struct UnitCase {
 fn unit_strategy() -> BS<UnitCase> {
     let secs = wunion(vec![
         (2, (-4_600_000_000i64..=4_600_000_000).boxed()),
+        // beyond the range where x * 1e9 is exactly representable (and beyond the i64 nanosecond range):
+        // the shift is then trunc(fl(x * 1e9)), C18's semantics
+        (2, (any::<bool>(), log_mag(44)).prop_map(|(s, m)| { let m = m as i64; if s { -m } else { m } }).boxed()),
+        (1, prop::sample::select(vec![9_223_372_036i64, -9_223_372_036, 9_223_372_037, -9_223_372_037, 10_000_000_000, -10_000_000_000, 100_000_000_000, -100_000_000_000]).boxed()),
         (2, (-100_000i64..=100_000).boxed()),
         (1, prop::sample::select(vec![0i64, 1, -1, 86_400, -86_400, 4_600_000_000, -4_600_000_000, 3_155_760_000, -3_155_760_000]).boxed()),
     ]);
@@ -128,7 +132,7 @@ fn unit_oracle(c: &UnitCase) -> Verdict {
     let delta = match c.form {
         0 | 2 => UNIT_NS[c.u],
         1 | 3 => -UNIT_NS[c.u],
-        _ => c.secs as i128 * NS_S,
+        _ => f64_trunc_i128(c.secs as f64 * 1e9),
     };
     let want = c.e.c + delta;
     if !in_open_range(want) || !in_open_range(c.e.c) {
